@@ -5,6 +5,6 @@ Separate Extraction
   ArrayBucketModel.ab_step ArrayBucketModel.ab_null ArrayBucketModel.rcount ArrayBucketModel.rcap
   ArrayBucketModel.pool_of ArrayBucketModel.fcount_of
   MultiMapModel.step MultiMapModel.st_empty MultiMapModel.traverse MultiMapModel.get_count
-  MultiMapModel.get_key_count MultiMapModel.find MultiMapModel.evals MultiMapModel.lin_pred
+  MultiMapModel.get_key_count MultiMapModel.find MultiMapModel.evals MultiMapModel.lin_pred MultiMapModel.step1f MultiMapModel.step1
   WrapperModel.w_size WrapperModel.w_count WrapperModel.w_equal_range WrapperModel.w_insert WrapperModel.w_erase_key
   WrapperModel.w_erase_if WrapperModel.w_clear WrapperModel.w_erase_at WrapperModel.w_erase_range WrapperModel.w_eq.
